@@ -15,7 +15,8 @@ From TL Require Import Lib.Base Lib.GenTypes Gen.MagicGen Model.MagicNum Model.M
       hypotheses: with them on, the model uses the tables found in the (repaired) source, and the statement covers that. *)
 Theorem C02_py_report_exact : forall q cfg f,
   q_py_upper_neg_flagged q = false -> q_py_upper_ann_flagged q = false ->
-  q_py_upper_tuple_flagged q = false -> file_good MPy f = true ->
+  q_py_upper_tuple_flagged q = false -> q_py_enumerate_kw_flagged q = false -> q_py_upper_binop_flagged q = false ->
+  file_good MPy f = true ->
   report MPy q cfg f = spec_report MPy cfg f.
 Proof. exact py_report_exact. Qed.
 Print Assumptions C02_py_report_exact.
@@ -94,7 +95,7 @@ Proof. exact small_int_monotone. Qed.
 Print Assumptions C02_small_int_monotone.
 
 (* 8. The faithful model (every flag as claimed for the current tree) is exact on every admissible file outside the
-      defect classes that are still open: Python UPPER_CASE definitions through a minus / annotation / tuple,
+      defect classes that are still open: Python UPPER_CASE definitions through a minus / annotation / tuple / product, enumerate(.., start=N),
       TypeScript paths on which the substring test and the documented test-file rule differ, and TypeScript
       declarations of a one-letter upper-case name (partial: the full statements
       are 1; for Rust there is no restriction left, see C02_rs_report_exact). *)
